@@ -503,4 +503,78 @@ func runC32(r *core.Run, prop string) {
 			r.Sample(map[string]any{"options": opts, "handler": handler, "elements": kinds, "status": resp.Status})
 		}
 	})
+	if r.RaceMode {
+		return
+	}
+	// Idempotency keys of bulk elements: "each successful element's result matches what the same
+	// request would return on its own" includes the element's `ik` — a request replayed with its key
+	// is answered from the original log and writes nothing. A bulk with one keyed element of every
+	// action kind (random order) is posted twice; the replay must leave the ledger untouched and
+	// report the same log id for every element.
+	nIK := r.N(60, 1500)
+	r.Floor("ik_replays_compared", int64(nIK/2))
+	r.ForEach("ik_replay", nIK, 0, func(c *core.Case) {
+		rng := c.Rng
+		e := sim.NewEnv(sim.Options{})
+		defer e.Close()
+		_ = e.CreateLedger("l1", "_default", nil)
+		e.Apply("l1", sim.Op{Kind: "postings", Postings: []sim.P{{Source: "world", Destination: "bank", Asset: "USD", Amount: "100"}}})
+		e.Apply("l1", sim.Op{Kind: "postings", Postings: []sim.P{{Source: "world", Destination: "bank", Asset: "USD", Amount: "5"}}})
+		e.Apply("l1", sim.Op{Kind: "save_acc_meta", Address: "bank", Metadata: map[string]string{"ka": "v"}})
+		e.Apply("l1", sim.Op{Kind: "save_tx_meta", TxID: 1, Metadata: map[string]string{"kt": "v"}})
+		parts := []string{
+			`{"action":"CREATE_TRANSACTION","ik":"ik-create","data":{"postings":[{"source":"world","destination":"x","asset":"USD","amount":3}]}}`,
+			`{"action":"ADD_METADATA","ik":"ik-add-acc","data":{"targetType":"ACCOUNT","targetId":"bank","metadata":{"n":"1"}}}`,
+			`{"action":"ADD_METADATA","ik":"ik-add-tx","data":{"targetType":"TRANSACTION","targetId":1,"metadata":{"n":"1"}}}`,
+			`{"action":"DELETE_METADATA","ik":"ik-del-acc","data":{"targetType":"ACCOUNT","targetId":"bank","key":"ka"}}`,
+			`{"action":"DELETE_METADATA","ik":"ik-del-tx","data":{"targetType":"TRANSACTION","targetId":1,"key":"kt"}}`,
+			`{"action":"REVERT_TRANSACTION","ik":"ik-revert","data":{"id":2}}`,
+		}
+		rng.Shuffle(len(parts), func(i, j int) { parts[i], parts[j] = parts[j], parts[i] })
+		parts = parts[:1+rng.Intn(len(parts))]
+		opts := []string{"", "atomic=true", "continueOnFailure=true"}[rng.Intn(3)]
+		path := "/v2/l1/_bulk"
+		if opts != "" {
+			path += "?" + opts
+		}
+		body := "[" + strings.Join(parts, ",") + "]"
+		type resT struct {
+			Data []struct {
+				ErrorCode    string `json:"errorCode"`
+				ResponseType string `json:"responseType"`
+				LogID        uint64 `json:"logID"`
+			} `json:"data"`
+		}
+		post := func() (int, resT) {
+			resp := e.DoCtx(memstore.WithClient(context.Background(), 1), "POST", path, []byte(body), map[string]string{})
+			var out resT
+			_ = json.Unmarshal(resp.Body, &out)
+			return resp.Status, out
+		}
+		st1, out1 := post()
+		if st1 != 200 || len(out1.Data) != len(parts) {
+			r.Count("ik_first_post_not_200", 1)
+			return
+		}
+		mid := e.C.Snapshot("l1").Digest()
+		st2, out2 := post()
+		after := e.C.Snapshot("l1").Digest()
+		r.Count("ik_replays_compared", 1)
+		r.Seen("ik_replay_shapes", fmt.Sprintf("%s n=%d", opts, len(parts)))
+		detail := map[string]any{"options": opts, "body": body, "first_status": st1, "replay_status": st2, "first": out1, "replay": out2}
+		if mid != after {
+			report(c, "C32/keyed-bulk-replayed-with-the-same-keys-changed-the-ledger", detail)
+			return
+		}
+		if st2 != 200 || len(out2.Data) != len(parts) {
+			report(c, "C32/keyed-bulk-replay-not-answered-like-the-original", detail)
+			return
+		}
+		for i := range out1.Data {
+			if out1.Data[i].LogID != out2.Data[i].LogID || out2.Data[i].ErrorCode != "" {
+				report(c, "C32/keyed-bulk-replay-element-answered-from-another-log", detail)
+				return
+			}
+		}
+	})
 }
